@@ -319,14 +319,14 @@ def fill_ref(schema: Schema, m: Msg, ref, aval: Dict[str, Any]) -> None:
             continue
         v = aval[f.name]
         if f.card == "repeated":
-            rep = getattr(ref, f.name)
+            rep = getattr(ref, f.pname)
             for x in v:
                 if _is_msglike(f.kind):
                     _ref_set_elem(schema, f.kind, rep.add(), x)
                 else:
                     rep.append(x)
         elif f.card == "map":
-            mp = getattr(ref, f.name)
+            mp = getattr(ref, f.pname)
             for k, x in v.items():
                 if _is_msglike(f.kind):
                     _ref_set_elem(schema, f.kind, mp[k], x)
@@ -334,9 +334,9 @@ def fill_ref(schema: Schema, m: Msg, ref, aval: Dict[str, Any]) -> None:
                     mp[k] = x
         else:
             if _is_msglike(f.kind):
-                _ref_set_elem(schema, f.kind, getattr(ref, f.name), v)
+                _ref_set_elem(schema, f.kind, getattr(ref, f.pname), v)
             else:
-                setattr(ref, f.name, v)
+                setattr(ref, f.pname, v)
 
 
 def make_ref(schema: Schema, refns, m: Msg, aval: Dict[str, Any]):
@@ -362,22 +362,22 @@ def project_ref(schema: Schema, m: Msg, ref) -> Dict[str, Any]:
     out: Dict[str, Any] = {}
     for f in m.fields:
         if f.card == "repeated":
-            lst = [_ref_get_elem(schema, f.kind, x) for x in getattr(ref, f.name)]
+            lst = [_ref_get_elem(schema, f.kind, x) for x in getattr(ref, f.pname)]
             if lst:
                 out[f.name] = lst
         elif f.card == "map":
-            mp = getattr(ref, f.name)
+            mp = getattr(ref, f.pname)
             d = {k: _ref_get_elem(schema, f.kind, mp[k]) for k in mp}
             if d:
                 out[f.name] = d
         elif f.card == "oneof":
-            if ref.WhichOneof(f.group) == f.name:
-                out[f.name] = _ref_get_elem(schema, f.kind, getattr(ref, f.name))
+            if ref.WhichOneof(f.group) == f.pname:
+                out[f.name] = _ref_get_elem(schema, f.kind, getattr(ref, f.pname))
         elif f.card == "optional" or _is_msglike(f.kind):
-            if ref.HasField(f.name):
-                out[f.name] = _ref_get_elem(schema, f.kind, getattr(ref, f.name))
+            if ref.HasField(f.pname):
+                out[f.name] = _ref_get_elem(schema, f.kind, getattr(ref, f.pname))
         else:
-            out[f.name] = getattr(ref, f.name)
+            out[f.name] = getattr(ref, f.pname)
     return normalize(schema, m, out)
 
 
